@@ -27,7 +27,7 @@ func (timeoutErr) Temporary() bool { return true }
 func (timeoutErr) Is(t error) bool { return t == os.ErrDeadlineExceeded }
 
 // ReadFaultKinds lists the errors a source can fail with (all "other than end-of-file").
-var ReadFaultKinds = []string{"sim", "connreset", "timeout", "closedpipe", "unexpectedeof", "eintr", "eagain", "ctxcanceled", "noprogress"}
+var ReadFaultKinds = []string{"sim", "connreset", "timeout", "closedpipe", "unexpectedeof", "eintr", "eagain", "ctxcanceled", "noprogress", "wrappedeof"}
 
 // WriteFaultKinds lists the errors a sink can fail with.
 var WriteFaultKinds = []string{"enospc", "epipe", "sim", "eagain"}
@@ -53,6 +53,11 @@ func ErrOf(kind string) error {
 		return context.Canceled
 	case "noprogress":
 		return io.ErrNoProgress
+	case "wrappedeof":
+		// a failure that wraps io.EOF (a transport reporting "peer closed the connection in the middle of a message"):
+		// errors.Is(err, io.EOF) holds, err == io.EOF does not. By the io.Reader contract only io.EOF itself is the end
+		// of the stream ("Read must return EOF itself, not an error wrapping EOF"): this is an error other than EOF.
+		return &os.PathError{Op: "read", Path: "stream", Err: io.EOF}
 	case "enospc":
 		return syscall.ENOSPC
 	case "epipe":
